@@ -174,7 +174,7 @@ func (c *Ctx) ruleHostVer() {
 			}
 			found := false
 			for _, r := range returnsOf(v2) {
-				k, ok := constInt(r.Results[0])
+				k, ok := constInt(resultOf(r, 0))
 				if !ok || k != 0 {
 					continue
 				}
@@ -199,7 +199,7 @@ func (c *Ctx) ruleHostVer() {
 		if root != nil {
 			okSucc := true
 			for _, r := range returnsOf(v2) {
-				if k, ok := constInt(r.Results[0]); ok && k == 0 {
+				if k, ok := constInt(resultOf(r, 0)); ok && k == 0 {
 					continue
 				}
 				if !root.Block().Dominates(r.Block()) {
